@@ -112,6 +112,9 @@ func TextProducer() Producer {
 		}
 
 		v := reflect.Indirect(reflect.ValueOf(data))
+		if !v.IsValid() {
+			return fmt.Errorf("nil pointer data (%T) given to produce text from", data)
+		}
 		if t := v.Type(); t.Kind() == reflect.Struct || t.Kind() == reflect.Slice {
 			b, err := swag.WriteJSON(data)
 			if err != nil {
